@@ -211,6 +211,13 @@ class Report:
                     self.known_hits.append((signature, k.get("what", "")))
                 return
         os.makedirs(os.path.join(VERIF, "replays"), exist_ok=True)
+        if kind == "correspondence":
+            # model and implementation differ on an observable, but the property's direct oracle, evaluated on
+            # every generated and shrunk case of this run (that is the search), found no input on which the
+            # property itself fails: the property is no longer SHOWN to hold, without a failing input
+            no_input = True
+            detail = dict(detail, note="correspondence `model = implementation` no longer checks for this property; "
+                                       "no input violating the property itself was found by this run's oracles")
         body = dict(property=self.prop, kind=kind, seed=self.seed, tier=self.tier, signature=signature, **detail)
         path = os.path.join(VERIF, "replays", f"{self.prop}-{case_hash(body)}.json")
         with open(path, "w") as f:
